@@ -29,7 +29,7 @@ PINNED = ['test_DT_If', 'test_DT_In', 'test_DT_InSV', 'test_DT_Raise', 'test_DT_
 WATCH = {
     'DocumentTemplate/DT_String.py': 'C01 C06 C07 C02 C08 C17 C18 C19',
     'DocumentTemplate/DT_HTML.py': 'C01 C06 C07 C03 C17',
-    'DocumentTemplate/DT_Util.py': 'C06 C07 C02 C05 C12 C09 C17 C18 C10',
+    'DocumentTemplate/DT_Util.py': 'C06 C07 C02 C04 C05 C12 C09 C17 C18 C10',
     'DocumentTemplate/DT_Var.py': 'C15 C04 C03 C19 C05 C07 C09',
     'DocumentTemplate/DT_In.py': 'C10 C11 C12 C13 C08 C05 C17 C07 C18 C06',
     'DocumentTemplate/DT_InSV.py': 'C10 C11 C12 C16 C05 C17',
